@@ -27,8 +27,26 @@ static bool check_coeff(const std::string &key, const Layout &L, uint32_t x, Int
     return true;
 }
 
+// histories: layout A then layout B in one thread (every ordered pair of the grid): B's digits must satisfy the relation
+static void layout_histories() {
+    std::vector<Layout> grid = {{3, 7}, {2, 10}, {1, 1}, {1, 8}, {2, 2}, {16, 2}, {4, 8}, {32, 1}, {2, 16}, {8, 4}, {3, 10}, {5, 6}, {1, 30}, {4, 7}, {2, 8}};
+    TLweParams *tp = new_TLweParams(N, 1, 0., 1.); TorusPolynomial *in = new_TorusPolynomial(N);
+    for (size_t a = 0; a < grid.size(); a++) for (size_t b = 0; b < grid.size(); b++) { if (a == b) continue;
+        std::string key = fmt("layout-history/(%d,%d)-then-(%d,%d)", grid[a].l, grid[a].Bgbit, grid[b].l, grid[b].Bgbit);
+        if (!take(key)) continue; if (deadline()) break; current(key);
+        TGswParams *ga = new_TGswParams(grid[a].l, grid[a].Bgbit, tp), *gb = new_TGswParams(grid[b].l, grid[b].Bgbit, tp); IntPolynomial *da = new_IntPolynomial_array(grid[a].l, N), *db = new_IntPolynomial_array(grid[b].l, N);
+        uint64_t x = a * 31 + b; bool ok = true;
+        for (int rep = 0; rep < 2 && ok; rep++) { for (int j = 0; j < N; j++) in->coefsT[j] = j < 8 ? (Torus32)(j * 0x20000000u) : (Torus32)splitmix(x);
+            tGswTorus32PolynomialDecompH(da, in, ga); tGswTorus32PolynomialDecompH(db, in, gb);
+            for (int j = 0; j < N && ok; j++) ok = check_coeff(key, grid[b], (uint32_t)in->coefsT[j], db, j) && check_coeff(key, grid[a], (uint32_t)in->coefsT[j], da, j); }
+        eval(4 * N); nontrivial(1); outcome(mix(a, b)); delete_IntPolynomial_array(grid[a].l, da); delete_IntPolynomial_array(grid[b].l, db); delete_TGswParams(ga); delete_TGswParams(gb);
+    }
+    delete_TorusPolynomial(in); delete_TLweParams(tp);
+    sample("layout-history/(2,10)-then-(3,10): one thread decomposes with (l,Bgbit)=(2,10), then with (3,10): both satisfy the digit relation");
+}
 int main(int argc, char **argv) {
     init(argc, argv);
+    if (opt("layouts") != "default") layout_histories();
     std::vector<Layout> layouts = quick() ? std::vector<Layout>{{3, 7}, {2, 10}, {4, 8}, {1, 1}}
                                           : std::vector<Layout>{{3, 7}, {2, 10}, {1, 1}, {1, 8}, {2, 2}, {16, 2}, {4, 8}, {32, 1}, {2, 16}, {8, 4}, {3, 10}, {5, 6}, {1, 30}};
     if (opt("layouts") == "default") layouts = {{3, 7}, {2, 10}};
